@@ -37,9 +37,10 @@ class Env:
     sym = ctx.mode == "sym"
     cosf = elementwise("x", 0)(self.trig.cos); sinf = elementwise("x", 0)(self.trig.sin)
     sqrtf = elementwise("x", 0)(self.sq); expf = elementwise("x", 0)(self.ex)
+    acosf = elementwise("x", 0)(self.trig.acos)
     if sym:
-      self.cm = [patched(lf, cos=cosf, sin=sinf, sqrt=sqrtf, exp=expf, complex_exp=self.trig.cexp),
-                 patched(la, cos=cosf, sin=sinf, sqrt=sqrtf, exp=expf)]
+      self.cm = [patched(lf, cos=cosf, sin=sinf, sqrt=sqrtf, exp=expf, acos=acosf, complex_exp=self.trig.cexp),
+                 patched(la, cos=cosf, sin=sinf, sqrt=sqrtf, exp=expf, acos=acosf)]
       ctx.rpow_hook = self.ex.rpow
       ctx.sqrt_hook = self.sq
     else:
